@@ -12,6 +12,16 @@
 // the ledger and played with PlayForMiner. A call that fails (Invoke error or
 // status >= 400) commits nothing. The state is the committed content of the
 // governToken / proposal / timer / $tdpos buckets.
+//
+// Amounts: the ordinary events carry valid decimal amounts (0, 1, 500, 1000,
+// the whole / available balance and one more). On top of that every expanded
+// state is swept with every amount-taking method x every call site x an
+// alphabet of negative, over-supply (beyond 64 bits), malformed, zero and
+// unusually spelled amount strings (section "amount sweep"). The oracles never
+// say which amount must be refused: whatever is committed has to keep, for
+// every account, balance >= each locked amount, no balance lowered except by
+// the account's own transfer, locks moved only (and only in the right
+// direction) by lock / unlock calls of that account, and conservation.
 package c19
 
 import (
@@ -245,13 +255,18 @@ func readTables(w *world.World) *tables {
 
 type step struct {
 	Ev        string
-	Kind      string // init xfer propose vote thaw tick nominate tvote trevoke unnominate lock! unlock!
-	From, To  string // symbolic account names
-	Amt       *big.Int
-	Stale     bool  // TDPoS revoke naming the height before the tip
-	Committed bool  // the call's transaction was committed
-	Mined     bool  // a block was produced (committed call or tick)
-	Height    int64 // height of the produced block
+	Kind      string   // init xfer propose vote thaw tick nominate tvote trevoke unnominate lock! unlock!
+	From, To  string   // symbolic account names
+	Amt       *big.Int // numeric value of the amount argument (nil: none, or it is no base-10 integer)
+	Raw       string   // the amount argument exactly as sent
+	HasAmt    bool     // the call carries an amount argument
+	Canon     bool     // Raw is the canonical decimal rendering of a non-negative integer
+	Target    string   // direct Lock / UnLock: the account named as 'from' (symbolic)
+	LT        string   // direct Lock / UnLock: the lock type named
+	Stale     bool     // TDPoS revoke naming the height before the tip
+	Committed bool     // the call's transaction was committed
+	Mined     bool     // a block was produced (committed call or tick)
+	Height    int64    // height of the produced block
 	Fired     []string
 	Obs       string
 }
@@ -268,7 +283,8 @@ func (c *counters) add(k string) {
 }
 
 // collector keeps, per violation key, the smallest counterexample (shortest
-// history, fewest transfers, a non-self transfer preferred, then lexicographic)
+// history, fewest transfers, a non-self transfer preferred, shortest spelling,
+// then lexicographic)
 // so that what is reported does not depend on worker scheduling and relies on
 // as few other defects as possible.
 type collector struct {
@@ -296,7 +312,8 @@ func rankOf(hist []string) string {
 			stale++
 		}
 	}
-	return fmt.Sprintf("%03d|%d|%d|%d|%s", len(hist), xfers, self, stale, strings.Join(hist, " "))
+	j := strings.Join(hist, " ")
+	return fmt.Sprintf("%03d|%d|%d|%d|%04d|%s", len(hist), xfers, self, stale, len(j), j)
 }
 
 func (c *collector) add(vs []core.Violation, hist []string) {
@@ -346,6 +363,11 @@ type inst struct {
 	last     *step
 	tdposOld map[string]string // $tdpos bucket as of the block before the tip
 	cnt      *counters
+
+	spellDepth int              // valid alternative spellings are probed after histories up to this length
+	applied    []string         // events applied so far
+	probeClass string           // non-empty: this instance executes one sweep probe of that amount class
+	sweepViol  []core.Violation // replay mode only: violations found by the probes of a sweep
 }
 
 func worldConfig() world.Config {
@@ -355,7 +377,7 @@ func worldConfig() world.Config {
 	return cfg
 }
 
-func newInst(cnt *counters, col *collector, alpha string) *inst {
+func newInst(cnt *counters, col *collector, alpha string, spellDepth ...int) *inst {
 	vhook.Capture()
 	w, err := world.New(worldConfig(), nil)
 	if err != nil {
@@ -364,7 +386,10 @@ func newInst(cnt *counters, col *collector, alpha string) *inst {
 	if err := registerTdpos(w); err != nil {
 		core.HarnessError("c19: tdpos: %v", err)
 	}
-	i := &inst{w: w, tip: w.Genesis, cnt: cnt, col: col, alpha: alpha}
+	i := &inst{w: w, tip: w.Genesis, cnt: cnt, col: col, alpha: alpha, spellDepth: 1 << 20}
+	if len(spellDepth) == 1 {
+		i.spellDepth = spellDepth[0]
+	}
 	for k := 0; k < premine; k++ {
 		if _, _, err := i.mine(nil); err != nil {
 			core.HarnessError("c19: premine: %v", err)
@@ -445,6 +470,30 @@ func (i *inst) amount(tok, acc, lt string) *big.Int {
 	return big10(tok)
 }
 
+// amountArg resolves an amount token to the argument string that is sent and
+// its numeric value. Besides the symbolic tokens of amount():
+//
+//	=<literal>  the literal is sent verbatim (negative, zero, malformed, huge,
+//	            alternative spellings: the amount alphabet of the sweep)
+//	-all        minus the whole balance of acc
+func (i *inst) amountArg(s *step, tok, acc, lt string) {
+	s.HasAmt = true
+	switch {
+	case strings.HasPrefix(tok, "="):
+		s.Raw = tok[1:]
+		if n, ok := new(big.Int).SetString(s.Raw, 10); ok {
+			s.Amt = n
+		}
+	case tok == "-all":
+		s.Amt = new(big.Int).Neg(i.cur.bal(addrOf(acc)).Total)
+		s.Raw = "-" + i.cur.bal(addrOf(acc)).Total.String()
+	default:
+		s.Amt = i.amount(tok, acc, lt)
+		s.Raw = s.Amt.String()
+	}
+	s.Canon = s.Amt != nil && s.Amt.Sign() >= 0 && s.Amt.String() == s.Raw
+}
+
 func proposalJSON(stop, trigger int64) string {
 	return fmt.Sprintf(`{"args":{"min_vote_percent":"51","stop_vote_height":"%d"},"trigger":{"height":%d,"module":"xkernel","contract":"$govern_token","method":"TotalSupply","args":{}}}`, stop, trigger)
 }
@@ -469,53 +518,58 @@ func (i *inst) request(ev string) (*step, *protos.InvokeRequest) {
 	case "xfer": // xfer:a>b:amt
 		ft := strings.Split(f[1], ">")
 		s.From, s.To = ft[0], ft[1]
-		s.Amt = i.amount(f[2], s.From, "")
+		i.amountArg(s, f[2], s.From, "")
 		req.ContractName, req.MethodName = "$govern_token", "Transfer"
 		req.Args["to"] = []byte(addrOf(s.To))
-		req.Args["amount"] = []byte(s.Amt.String())
-	case "lock!", "unlock!": // direct user call lock!:a:amt
-		s.From = f[1]
-		s.Amt = i.amount(f[2], s.From, typeOrdinary)
+		req.Args["amount"] = []byte(s.Raw)
+	case "lock!", "unlock!": // direct user call lock!:a:amt | lock!:initiator>account:locktype:amt
+		s.From, s.Target, s.LT = f[1], f[1], typeOrdinary
+		tok := f[2]
+		if len(f) == 4 {
+			it := strings.Split(f[1], ">")
+			s.From, s.Target, s.LT, tok = it[0], it[1], f[2], f[3]
+		}
+		i.amountArg(s, tok, s.Target, s.LT)
 		req.ContractName = "$govern_token"
 		req.MethodName = map[string]string{"lock!": "Lock", "unlock!": "UnLock"}[s.Kind]
-		req.Args["from"] = []byte(addrOf(s.From))
-		req.Args["amount"] = []byte(s.Amt.String())
-		req.Args["lock_type"] = []byte(typeOrdinary)
+		req.Args["from"] = []byte(addrOf(s.Target))
+		req.Args["amount"] = []byte(s.Raw)
+		req.Args["lock_type"] = []byte(s.LT)
 	case "propose": // propose:a
 		s.From = f[1]
-		s.Amt = big.NewInt(1000)
+		s.Amt = big.NewInt(1000) // fixed by the contract; Propose takes no amount argument
 		req.ContractName, req.MethodName = "$proposal", "Propose"
 		req.Args["proposal"] = []byte(proposalJSON(tipH+3, tipH+4))
 	case "vote": // vote:p:b:amt
 		s.From = f[2]
-		s.Amt = i.amount(f[3], s.From, typeOrdinary)
+		i.amountArg(s, f[3], s.From, typeOrdinary)
 		req.ContractName, req.MethodName = "$proposal", "Vote"
 		req.Args["proposal_id"] = []byte(f[1])
-		req.Args["amount"] = []byte(s.Amt.String())
+		req.Args["amount"] = []byte(s.Raw)
 	case "thaw": // thaw:p:a
 		s.From = f[2]
 		req.ContractName, req.MethodName = "$proposal", "Thaw"
 		req.Args["proposal_id"] = []byte(f[1])
 	case "nominate": // nominate:a:amt (self nomination)
 		s.From = f[1]
-		s.Amt = i.amount(f[2], s.From, typeTdpos)
+		i.amountArg(s, f[2], s.From, typeTdpos)
 		req.ContractName, req.MethodName = bktTdpos, "nominateCandidate"
 		req.Args["candidate"] = []byte(addrOf(s.From))
-		req.Args["amount"] = []byte(s.Amt.String())
+		req.Args["amount"] = []byte(s.Raw)
 		req.Args["height"] = []byte(hsel("tip"))
 	case "tvote": // tvote:voter:cand:amt
 		s.From, s.To = f[1], f[2]
-		s.Amt = i.amount(f[3], s.From, typeTdpos)
+		i.amountArg(s, f[3], s.From, typeTdpos)
 		req.ContractName, req.MethodName = bktTdpos, "voteCandidate"
 		req.Args["candidate"] = []byte(addrOf(s.To))
-		req.Args["amount"] = []byte(s.Amt.String())
+		req.Args["amount"] = []byte(s.Raw)
 		req.Args["height"] = []byte(hsel("tip"))
 	case "trevoke": // trevoke:voter:cand:amt:tip|old
 		s.From, s.To = f[1], f[2]
-		s.Amt = i.amount(f[3], s.From, typeTdpos)
+		i.amountArg(s, f[3], s.From, typeTdpos)
 		req.ContractName, req.MethodName = bktTdpos, "revokeVote"
 		req.Args["candidate"] = []byte(addrOf(s.To))
-		req.Args["amount"] = []byte(s.Amt.String())
+		req.Args["amount"] = []byte(s.Raw)
 		req.Args["height"] = []byte(hsel(f[4]))
 	case "unnominate": // unnominate:a:tip|old
 		s.From = f[1]
@@ -529,6 +583,10 @@ func (i *inst) request(ev string) (*step, *protos.InvokeRequest) {
 }
 
 func (i *inst) Apply(ev string) string {
+	if ev == "sweep" {
+		return i.sweep()
+	}
+	i.applied = append(i.applied, ev)
 	i.seq++
 	i.pre = i.cur
 	var s *step
@@ -574,7 +632,10 @@ func (i *inst) Apply(ev string) string {
 			s.Obs += fmt.Sprintf(" timer%v", s.Fired)
 		}
 	}
-	if s.Amt != nil {
+	switch {
+	case s.HasAmt && !s.Canon:
+		s.Obs += " amt=" + strconv.Quote(s.Raw)
+	case s.Amt != nil:
 		s.Obs += " amt=" + s.Amt.String()
 	}
 	i.last = s
@@ -656,10 +717,10 @@ func (i *inst) Enabled() []string {
 	t := i.cur
 	if !t.initialised() {
 		// before initialisation every other call must fail: a few representatives
-		return []string{"init", "xfer:a>b:1", "propose:a", "nominate:a:1", "tick"}
+		return []string{"init", "xfer:a>b:1", "propose:a", "nominate:a:1", "tick", "sweep"}
 	}
 	if i.alpha == "proposal" {
-		return i.enabledProposal()
+		return append(i.enabledProposal(), "sweep")
 	}
 	evs := []string{"init", "tick"}
 	for _, from := range accounts {
@@ -709,7 +770,7 @@ func (i *inst) Enabled() []string {
 		// nothing nominated yet: these must fail
 		evs = append(evs, "tvote:b:a:1", "trevoke:b:a:1:tip", "unnominate:a:tip")
 	}
-	evs = append(evs, "lock!:a:500", "unlock!:a:500")
+	evs = append(evs, "lock!:a:500", "unlock!:a:500", "sweep")
 	return evs
 }
 
@@ -743,6 +804,178 @@ func (i *inst) enabledProposal() []string {
 }
 
 // ---------------------------------------------------------------------------
+// amount sweep
+//
+// The event "sweep" is offered in every state. It takes every method that has
+// an amount argument, with every choice of its other arguments (the call
+// sites), and sends it once with every amount string of sweepAmounts: negative,
+// more than the total supply (up to beyond 64 bits), malformed, and - after
+// histories of at most spellDepth calls - zero and alternative spellings of
+// valid numbers. Each such call is pre-executed on this instance; pre-execution
+// works on a sandbox and commits nothing, so a call it refuses is a rejected
+// call. Every call it accepts is then executed as an ordinary transition on a
+// fresh instance (same history + that call, through VerifyTx / DoTx / block /
+// PlayForMiner) and judged by all the oracles. The sweep itself leaves the
+// state as it was (a self loop), so the unusual amounts occupy the last
+// position of every explored sequence; nothing is assumed about which of them
+// ought to be refused.
+
+type amountTok struct{ Tok, Class string }
+
+const (
+	clsNegative  = "negative"
+	clsOver      = "over_supply"
+	clsMalformed = "malformed"
+	clsZero      = "zero"
+	clsSpelling  = "spelling"
+)
+
+var sweepAmounts = []amountTok{
+	// negative: small, state relative, the supply, beyond it, the 64-bit edges and beyond
+	{"=-1", clsNegative}, {"=-500", clsNegative}, {"-all", clsNegative}, {"=-4500", clsNegative}, {"=-4501", clsNegative},
+	{"=-9223372036854775807", clsNegative}, {"=-9223372036854775808", clsNegative}, {"=-9223372036854775809", clsNegative},
+	{"=-18446744073709551615", clsNegative}, {"=-18446744073709551617", clsNegative}, {"=-100000000000000000000000000000000", clsNegative},
+	// more than the total supply: by one, the 64-bit edges, values that wrap to 1 / 500 in 64 bits, 10^32
+	{"=4501", clsOver}, {"=9223372036854775807", clsOver}, {"=9223372036854775808", clsOver}, {"=18446744073709551615", clsOver},
+	{"=18446744073709551616", clsOver}, {"=18446744073709551617", clsOver}, {"=18446744073709552116", clsOver}, {"=100000000000000000000000000000000", clsOver},
+	// malformed: empty, blanks, signs only, surrounding white space, hex, exponent, fraction, separators, double signs, non-ASCII digits
+	{"=", clsMalformed}, {"= ", clsMalformed}, {"=abc", clsMalformed}, {"=-", clsMalformed}, {"=+", clsMalformed},
+	{"= 500", clsMalformed}, {"=500 ", clsMalformed}, {"=\t500", clsMalformed}, {"=500\n", clsMalformed}, {"=- 500", clsMalformed},
+	{"=0x1f4", clsMalformed}, {"=1f4", clsMalformed}, {"=5e2", clsMalformed}, {"=1.5", clsMalformed}, {"=500.0", clsMalformed},
+	{"=1_000", clsMalformed}, {"=1,000", clsMalformed}, {"=--500", clsMalformed}, {"=+-500", clsMalformed}, {"=-+500", clsMalformed},
+	{"=٥٠٠", clsMalformed}, {"=NaN", clsMalformed}, {"=Inf", clsMalformed},
+	// zero in several spellings
+	{"=0", clsZero}, {"=-0", clsZero}, {"=+0", clsZero}, {"=00", clsZero},
+	// valid positive numbers spelled unusually
+	{"=+500", clsSpelling}, {"=0500", clsSpelling}, {"=+1", clsSpelling},
+}
+
+func validClass(c string) bool { return c == clsZero || c == clsSpelling }
+
+type probe struct{ Ev, Class string }
+
+// probeSites lists the call sites of the current state as event templates with
+// one %s for the amount token.
+func (i *inst) probeSites() []string {
+	var out []string
+	pids := i.proposalIDs()
+	if len(pids) == 0 {
+		pids = []string{"1"} // no such proposal
+	}
+	if i.alpha == "proposal" {
+		for _, ft := range []string{"a>b", "b>a", "a>a", "a>c", "c>a"} {
+			out = append(out, "xfer:"+ft+":%s")
+		}
+		for _, p := range pids {
+			for _, who := range []string{"a", "b"} {
+				out = append(out, "vote:"+p+":"+who+":%s")
+			}
+		}
+		return out
+	}
+	for _, from := range accounts {
+		for _, to := range accounts {
+			out = append(out, "xfer:"+from+">"+to+":%s")
+		}
+	}
+	for _, p := range pids {
+		for _, who := range accounts {
+			out = append(out, "vote:"+p+":"+who+":%s")
+		}
+	}
+	for _, who := range accounts {
+		out = append(out, "nominate:"+who+":%s")
+	}
+	for _, who := range accounts {
+		for _, cand := range []string{"a", "b"} {
+			out = append(out, "tvote:"+who+":"+cand+":%s")
+		}
+	}
+	for _, who := range []string{"a", "b"} {
+		for _, cand := range []string{"a", "b"} {
+			out = append(out, "trevoke:"+who+":"+cand+":%s:tip", "trevoke:"+who+":"+cand+":%s:old")
+		}
+	}
+	for _, kind := range []string{"lock!", "unlock!"} {
+		for _, ini := range []string{"a", "b"} {
+			for _, target := range []string{"a", "b"} {
+				for _, lt := range lockTypes {
+					out = append(out, kind+":"+ini+">"+target+":"+lt+":%s")
+				}
+			}
+		}
+	}
+	return out
+}
+
+func (i *inst) probes() []probe {
+	var out []probe
+	valid := len(i.applied) <= i.spellDepth
+	for _, site := range i.probeSites() {
+		for _, a := range sweepAmounts {
+			if validClass(a.Class) && !valid {
+				continue
+			}
+			out = append(out, probe{Ev: fmt.Sprintf(site, a.Tok), Class: a.Class})
+		}
+	}
+	return out
+}
+
+func (i *inst) sweep() string {
+	i.pre = i.cur
+	i.sweepViol = nil
+	before := i.Key()
+	n, accepted := 0, 0
+	for _, p := range i.probes() {
+		st, req := i.request(p.Ev)
+		if st.Amt != nil && st.Amt.Sign() == 0 && !validClass(p.Class) {
+			continue // '-all' of an empty balance is "-0": left to the zero class
+		}
+		n++
+		ini := addrOf(st.From)
+		res, err := i.w.PreExec([]*protos.InvokeRequest{req}, ini, []string{ini})
+		if err != nil || len(res.Responses) != 1 || res.Responses[0].Status >= 400 {
+			i.cnt.add("probe:" + st.Kind + ":" + p.Class + ":rejected")
+			continue
+		}
+		accepted++
+		i.runProbe(p, before)
+	}
+	// what the pre-executions left behind (nothing, if a refused call leaves no trace)
+	i.cur = readTables(i.w)
+	s := &step{Ev: "sweep", Kind: "sweep"}
+	s.Obs = fmt.Sprintf("sweep: %d calls, %d accepted by pre-execution", n, accepted)
+	i.last = s
+	return s.Obs
+}
+
+// runProbe executes one call that pre-execution accepted as an ordinary
+// transition on a fresh instance and applies the oracles to it.
+func (i *inst) runProbe(p probe, before string) {
+	j := newInst(i.cnt, nil, i.alpha)
+	defer j.Close()
+	for _, e := range i.applied {
+		j.Apply(e)
+	}
+	if k := j.Key(); k != before {
+		core.HarnessError("c19: nondeterminism: replaying %v for probe %q reached another state", i.applied, p.Ev)
+	}
+	j.probeClass = p.Class
+	j.Apply(p.Ev)
+	hist := append(append([]string(nil), i.applied...), p.Ev)
+	vs := j.check(hist)
+	if len(vs) == 0 {
+		return
+	}
+	if i.col != nil {
+		i.col.add(vs, hist)
+		return
+	}
+	i.sweepViol = append(i.sweepViol, vs...)
+}
+
+// ---------------------------------------------------------------------------
 // oracles
 
 func (i *inst) Check(hist []string) []core.Violation {
@@ -771,25 +1004,48 @@ func (i *inst) check(hist []string) []core.Violation {
 		}
 		out = append(out, core.Violation{Key: key, Summary: fmt.Sprintf("after %v: %s", hist, summary), Case: caseOf(hist), Expected: expected, Observed: observed})
 	}
+	if s.Kind == "sweep" {
+		// the pre-executions of the sweep committed nothing
+		i.cnt.add("sweep:states")
+		if pre.canon() != post.canon() {
+			add("c19.failed_call_left_trace.sweep", "the pre-executions of the amount sweep changed the tables", pre.canon(), post.canon())
+		}
+		return append(out, i.sweepViol...)
+	}
+	amtNote := ""
+	if s.HasAmt {
+		amtNote = fmt.Sprintf(" (amount argument %q)", s.Raw)
+	}
 	outcome := "rejected"
 	if s.Committed {
 		outcome = "committed"
 	} else if s.Kind == "tick" {
 		outcome = "mined"
 	}
-	i.cnt.add(s.Kind + ":" + outcome)
-	if len(s.Fired) > 0 {
-		i.cnt.add("timer_fired_blocks")
-	}
-	for k, v := range post.Raw[bktProposal] {
-		if _, err := strconv.Atoi(k); err != nil {
-			continue
+	if i.probeClass != "" {
+		// a sweep call that pre-execution accepted ("rejected" here: refused by VerifyTx / DoTx)
+		if outcome == "rejected" {
+			outcome = "refused"
 		}
-		var pr struct {
-			Status string `json:"status"`
+		i.cnt.add("probe:" + s.Kind + ":" + i.probeClass + ":" + outcome)
+		if s.Committed && pre.canon() != post.canon() {
+			i.cnt.add("probe_changed_state:" + i.probeClass)
 		}
-		if json.Unmarshal([]byte(v), &pr) == nil {
-			i.cnt.add("proposal_status:" + pr.Status)
+	} else {
+		i.cnt.add(s.Kind + ":" + outcome)
+		if len(s.Fired) > 0 {
+			i.cnt.add("timer_fired_blocks")
+		}
+		for k, v := range post.Raw[bktProposal] {
+			if _, err := strconv.Atoi(k); err != nil {
+				continue
+			}
+			var pr struct {
+				Status string `json:"status"`
+			}
+			if json.Unmarshal([]byte(v), &pr) == nil {
+				i.cnt.add("proposal_status:" + pr.Status)
+			}
 		}
 	}
 
@@ -868,8 +1124,12 @@ func (i *inst) check(hist []string) []core.Violation {
 	// 2. locked amounts change only through lock / unlock operations on that account
 	allowed := map[string]bool{}
 	switch s.Kind {
-	case "propose", "vote", "thaw", "lock!", "unlock!":
+	case "propose", "vote", "thaw":
 		allowed[addrOf(s.From)+"/"+typeOrdinary] = true
+	case "lock!", "unlock!":
+		if s.From == s.Target { // never one account's direct call on another account's locks
+			allowed[addrOf(s.Target)+"/"+s.LT] = true
+		}
 	case "nominate", "tvote", "trevoke", "unnominate":
 		allowed[addrOf(s.From)+"/"+typeTdpos] = true
 	}
@@ -910,14 +1170,18 @@ func (i *inst) check(hist []string) []core.Violation {
 	if s.Committed && len(s.Fired) == 0 {
 		var want *big.Int
 		lt := typeOrdinary
-		switch s.Kind {
-		case "propose", "vote":
+		// an amount argument that is not the canonical rendering of a non-negative
+		// integer has no agreed value: such a call is judged by direction only (2c)
+		plain := !s.HasAmt || s.Canon
+		switch {
+		case !plain:
+		case s.Kind == "propose" || s.Kind == "vote":
 			want = new(big.Int).Set(s.Amt)
-		case "nominate", "tvote":
+		case s.Kind == "nominate" || s.Kind == "tvote":
 			want, lt = new(big.Int).Set(s.Amt), typeTdpos
-		case "trevoke":
+		case s.Kind == "trevoke":
 			want, lt = new(big.Int).Neg(s.Amt), typeTdpos
-		case "thaw":
+		case s.Kind == "thaw":
 			f := strings.Split(s.Ev, ":")
 			if rec, ok := new(big.Int).SetString(pre.Raw[bktProposal]["lock_"+f[1]+"_"+addrOf(s.From)], 10); ok {
 				want = rec.Neg(rec)
@@ -933,14 +1197,97 @@ func (i *inst) check(hist []string) []core.Violation {
 		}
 	}
 
+	// 2c. direction: a locking call never lowers a locked amount, an unlocking
+	// call never raises one - whatever its amount argument looks like (a negative
+	// lock is no unlock without the checks). Not judged when a timer task ran in
+	// the same block (it unlocks as well).
+	if s.Committed && len(s.Fired) == 0 {
+		dir := map[string]int{"propose": 1, "vote": 1, "nominate": 1, "tvote": 1, "lock!": 1,
+			"thaw": -1, "trevoke": -1, "unnominate": -1, "unlock!": -1}[s.Kind]
+		if dir != 0 {
+			for _, addr := range unionAddrs(pre, post) {
+				b0, b1 := pre.bal(addr), post.bal(addr)
+				for _, lt := range sortedTypes(b0, b1) {
+					if d := b1.lock(lt).Cmp(b0.lock(lt)); d != 0 && d != dir {
+						what := map[int]string{1: "locking call lowered", -1: "unlocking call raised"}[dir]
+						add(fmt.Sprintf("c19.lock_direction.%s.%s", s.Kind, lt), fmt.Sprintf("%s%s: a %s locked[%s] of %s from %s to %s", s.Ev, amtNote, what, lt, nameOfAddr(addr), b0.lock(lt), b1.lock(lt)),
+							fmt.Sprintf("locked[%s] of %s not %s", lt, nameOfAddr(addr), map[int]string{1: "below", -1: "above"}[dir]+" "+b0.lock(lt).String()), b1.lock(lt).String())
+					}
+				}
+			}
+		}
+	}
+
 	// 3. a committed transfer never leaves the sender below one of its locked amounts
+	senderBelow := map[string]bool{}
 	if s.Kind == "xfer" && s.Committed {
 		b0, b1 := pre.bal(addrOf(s.From)), post.bal(addrOf(s.From))
 		for _, lt := range sortedTypes(b0, b0) {
 			if b0.lock(lt).Sign() > 0 && b1.Total.Cmp(b0.lock(lt)) < 0 {
-				add("c19.transfer_below_lock."+lt, fmt.Sprintf("%s (amount %s) was committed although %s had %s locked as %s: balance %s -> %s", s.Ev, s.Amt, s.From, b0.lock(lt), lt, b0.Total, b1.Total),
+				senderBelow[lt] = true
+				add("c19.transfer_below_lock."+lt, fmt.Sprintf("%s (amount %q) was committed although %s had %s locked as %s: balance %s -> %s", s.Ev, s.Raw, s.From, b0.lock(lt), lt, b0.Total, b1.Total),
 					"transfer refused", fmt.Sprintf("total_balance %s < locked[%s] %s", b1.Total, lt, b0.lock(lt)))
 			}
+		}
+	}
+
+	// 3b. in every reachable state every account's balance covers each of its
+	// locked amounts, whoever made the call (flagged at the step that opens or
+	// widens the gap)
+	roleOf := func(addr string) string {
+		switch {
+		case s.From != "" && addr == addrOf(s.From):
+			return "self"
+		case s.Kind == "xfer" && s.To != "" && addr == addrOf(s.To):
+			return "receiver"
+		case s.Target != "" && addr == addrOf(s.Target):
+			return "named"
+		}
+		return "other"
+	}
+	if pre.initialised() {
+		for _, addr := range unionAddrs(pre, post) {
+			b0, b1 := pre.bal(addr), post.bal(addr)
+			if b0.Bad != "" || b1.Bad != "" {
+				continue
+			}
+			role := roleOf(addr)
+			for _, lt := range sortedTypes(b0, b1) {
+				gap0 := new(big.Int).Sub(b0.lock(lt), b0.Total)
+				gap1 := new(big.Int).Sub(b1.lock(lt), b1.Total)
+				if b1.lock(lt).Sign() <= 0 || gap1.Sign() <= 0 || gap1.Cmp(gap0) <= 0 {
+					continue
+				}
+				if s.Kind == "xfer" && role == "self" && senderBelow[lt] {
+					continue // reported by 3
+				}
+				add(fmt.Sprintf("c19.balance_below_lock.%s.%s.%s", s.Kind, role, lt),
+					fmt.Sprintf("%s%s left %s with balance %s below its %s lock of %s (before: balance %s, locked %s)", s.Ev, amtNote, nameOfAddr(addr), b1.Total, lt, b1.lock(lt), b0.Total, b0.lock(lt)),
+					fmt.Sprintf("total_balance of %s >= locked[%s]", nameOfAddr(addr), lt), fmt.Sprintf("total_balance %s < locked[%s] %s", b1.Total, lt, b1.lock(lt)))
+			}
+		}
+	}
+
+	// 3c. a balance goes down only through a transfer that this very account
+	// initiated: no call lowers the balance of anybody but its initiator, and no
+	// call other than Transfer lowers a balance at all
+	if pre.initialised() {
+		for _, addr := range unionAddrs(pre, post) {
+			b0, b1 := pre.bal(addr), post.bal(addr)
+			if b0.Bad != "" || b1.Bad != "" || b1.Total.Cmp(b0.Total) >= 0 {
+				continue
+			}
+			role := roleOf(addr)
+			if s.Kind == "xfer" && s.Committed && role == "self" {
+				continue
+			}
+			who := "nobody (block without a call)"
+			if s.From != "" {
+				who = s.From
+			}
+			add(fmt.Sprintf("c19.balance_decreased_without_own_transfer.%s.%s", s.Kind, role),
+				fmt.Sprintf("%s%s, initiated by %s, lowered the balance of %s from %s to %s", s.Ev, amtNote, who, nameOfAddr(addr), b0.Total, b1.Total),
+				fmt.Sprintf("total_balance of %s stays >= %s", nameOfAddr(addr), b0.Total), b1.Total.String())
 		}
 	}
 
@@ -1016,14 +1363,18 @@ func run(tier core.Tier) *core.Report {
 	// many short-lived worlds: trade memory for fewer collections
 	defer debug.SetGCPercent(debug.SetGCPercent(400))
 	depth, deep := 4, 6
+	// zero / alternative spellings of valid amounts are legitimately accepted, so
+	// each of them costs a full transition: swept after histories up to this length
+	spell, spellDeep := 2, 3
 	if tier == core.Thorough {
 		depth, deep = 5, 7
+		spell, spellDeep = 3, 4
 	}
 	cnt := &counters{m: map[string]int{}}
 	col := &collector{m: map[string]*found{}}
-	cfg := xplore.Config{Name: "c19", New: func() xplore.Instance { return newInst(cnt, col, "full") }, MaxDepth: depth, Report: rep}
+	cfg := xplore.Config{Name: "c19", New: func() xplore.Instance { return newInst(cnt, col, "full", spell) }, MaxDepth: depth, Report: rep}
 	// deeper pass over the proposal life cycle (reduced alphabet)
-	cfg2 := xplore.Config{Name: "c19/proposal", New: func() xplore.Instance { return newInst(cnt, col, "proposal") }, MaxDepth: deep, Report: rep}
+	cfg2 := xplore.Config{Name: "c19/proposal", New: func() xplore.Instance { return newInst(cnt, col, "proposal", spellDeep) }, MaxDepth: deep, Report: rep}
 	var st, st2 xplore.Stats
 	if tier == core.Thorough {
 		// the cheaper pass first: the full pass may use up the budget
@@ -1037,6 +1388,10 @@ func run(tier core.Tier) *core.Report {
 	sample := []string{"init", "propose:a", "vote:1:a:all", "vote:1:b:500", "tick", "xfer:a>b:all"}
 	obs, _ := xplore.Replay(func() xplore.Instance { return newInst(&counters{m: map[string]int{}}, nil, "full") }, sample)
 	rep.Sample(map[string]interface{}{"history": sample, "observations": obs})
+	// and one sequence ending in calls of the amount sweep
+	sample2 := []string{"init", "nominate:b:all", "xfer:a>b:=-1", "vote:1:a:=+500", "nominate:a:=18446744073709551617", "xfer:b>a:=0x1f4"}
+	obs2, _ := xplore.Replay(func() xplore.Instance { return newInst(&counters{m: map[string]int{}}, nil, "full") }, sample2)
+	rep.Sample(map[string]interface{}{"history": sample2, "observations": obs2, "note": "'=<literal>' sends the literal as the amount argument"})
 	st.Fill(rep, "full.")
 	st2.Fill(rep, "proposal.")
 	col.flush(rep)
@@ -1045,9 +1400,29 @@ func run(tier core.Tier) *core.Report {
 	byKind := map[string]int{}
 	committed, rejected := 0, 0
 	statuses := map[string]int{}
+	// amount sweep: calls by method, by amount class and by outcome
+	sweepByKind, sweepByClass, sweepChanged := map[string]int{}, map[string]int{}, map[string]int{}
+	sweepCalls, sweepStates := 0, 0
+	sweepOutcome := map[string]int{}
 	for k, v := range cnt.m {
 		if strings.HasPrefix(k, "proposal_status:") {
 			statuses[strings.TrimPrefix(k, "proposal_status:")] = v
+			continue
+		}
+		if strings.HasPrefix(k, "probe:") { // probe:<kind>:<class>:<outcome>
+			f := strings.Split(k, ":")
+			sweepByKind[f[1]+":"+f[3]] += v
+			sweepByClass[f[2]+":"+f[3]] += v
+			sweepOutcome[f[3]] += v
+			sweepCalls += v
+			continue
+		}
+		if strings.HasPrefix(k, "probe_changed_state:") {
+			sweepChanged[strings.TrimPrefix(k, "probe_changed_state:")] = v
+			continue
+		}
+		if k == "sweep:states" {
+			sweepStates = v
 			continue
 		}
 		byKind[k] = v
@@ -1063,7 +1438,19 @@ func run(tier core.Tier) *core.Report {
 	rep.Set("proposal_statuses_seen", statuses)
 	rep.Set("calls_committed", committed)
 	rep.Set("calls_rejected", rejected)
-	rep.Set("bound", fmt.Sprintf("pass 'full': all call sequences of length <= %d over Init, Transfer(from,to in {a,b,c fresh} incl. to=from; 0,1,500,1000,all,all+1 and, with locks, available / available+1), Propose(a|b), Vote(p,a|b;0,500,all), Thaw(p,a|b), block ticks (timer tasks: CheckVoteResult / Trigger), TDPoS nominate / vote / revokeVote / revokeNominate (1,500,all; revokes naming the tip or the height before it), direct Lock / UnLock; pass 'proposal': length <= %d over Init, Transfer a<->b (500, all | available, available+1), Propose, Vote (500, all), Thaw, ticks; genesis quotas a=%d b=%d; merged on the committed content of the governToken, proposal, timer and $tdpos buckets (+ height while timer tasks are pending)", depth, deep, quotaA, quotaB))
+	var alphabet []string
+	for _, a := range sweepAmounts {
+		alphabet = append(alphabet, a.Class+" "+strconv.Quote(strings.TrimPrefix(a.Tok, "=")))
+	}
+	rep.Set("amount_sweep.amount_alphabet", alphabet)
+	rep.Set("amount_sweep.states_swept", sweepStates)
+	rep.Set("amount_sweep.calls", sweepCalls)
+	rep.Set("amount_sweep.calls_by_outcome", sweepOutcome)
+	rep.Set("amount_sweep.calls_by_method_and_outcome", sweepByKind)
+	rep.Set("amount_sweep.calls_by_amount_class_and_outcome", sweepByClass)
+	rep.Set("amount_sweep.committed_calls_that_changed_the_tables_by_class", sweepChanged)
+	rep.Set("amount_sweep.rule", fmt.Sprintf("in EVERY state that the two passes expand (all histories shorter than the pass bound) the event 'sweep' sends every method that takes an amount - Transfer (full pass: from,to over {a,b,c}^2; proposal pass: a>b b>a a>a a>c c>a), $proposal.Vote (each existing proposal, or the missing id 1; voter a|b|c), TDPoS nominateCandidate (a|b|c), voteCandidate (voter a|b|c, candidate a|b), revokeVote (voter a|b, candidate a|b, tip | height before), direct $govern_token.Lock / UnLock (initiator a|b, account a|b, lock type ordinary|tdpos) - with every amount string of amount_alphabet ('-all' = minus the whole balance of the account whose tokens the call moves or locks, skipped when that is 0): classes negative, over_supply, malformed in every swept state, classes zero and spelling after histories of <= %d (full) / <= %d (proposal) calls. Propose, Thaw and revokeNominate take no amount. A call refused by pre-execution (sandbox, commits nothing) counts as rejected; a call it accepts is executed as an ordinary transition (VerifyTx, DoTx, block, PlayForMiner) on a fresh instance and judged by all oracles, among them per account: balance >= every locked amount, no balance lowered except by the account's own Transfer, locking calls never lower / unlocking calls never raise a locked amount, locks only moved by lock / unlock calls of that account, conservation. No amount is assumed to be refused", spell, spellDeep))
+	rep.Set("bound", fmt.Sprintf("pass 'full': all call sequences of length <= %d over Init, Transfer(from,to in {a,b,c fresh} incl. to=from; 0,1,500,1000,all,all+1 and, with locks, available / available+1), Propose(a|b), Vote(p,a|b;0,500,all), Thaw(p,a|b), block ticks (timer tasks: CheckVoteResult / Trigger), TDPoS nominate / vote / revokeVote / revokeNominate (1,500,all; revokes naming the tip or the height before it), direct Lock / UnLock, and as last call of every sequence each call of the amount sweep (amount_sweep.rule); pass 'proposal': length <= %d over Init, Transfer a<->b (500, all | available, available+1), Propose, Vote (500, all), Thaw, ticks, amount sweep last; genesis quotas a=%d b=%d; merged on the committed content of the governToken, proposal, timer and $tdpos buckets (+ height while timer tasks are pending)", depth, deep, quotaA, quotaB))
 	rep.Set("exhaustive", st.Completed && st2.Completed)
 	rep.Assume("TDPoS kernel methods are the real ones: bcs/consensus/tdpos.NewTdposConsensus (non-BFT) constructed on the world's contract manager and agent.NewLedgerAgent with a stub network (only PeerInfo is used); the chain's own consensus stays 'single' (block production is done by the harness as Miner.packBlock does)")
 	rep.Assume("genesis has nofee=true (gas prices 0, transactions without UTXO inputs are admissible, as Chain.SubmitTx allows on such chains) so that fees do not bound the call sequences")
@@ -1088,7 +1475,11 @@ func replay(c json.RawMessage) (bool, string, error) {
 		fmt.Fprintf(&sb, "%s => %s; ", e, obs[k])
 	}
 	if len(viol) > 0 {
-		return true, viol[0].Key + ": " + viol[0].Summary + " [" + sb.String() + "]", nil
+		keys := make([]string, 0, len(viol))
+		for _, v := range viol {
+			keys = append(keys, v.Key)
+		}
+		return true, strings.Join(keys, " + ") + ": " + viol[0].Summary + " [" + sb.String() + "]", nil
 	}
 	return false, "history replayed without violation [" + sb.String() + "]", nil
 }
